@@ -16,6 +16,11 @@ structure Good (F : Bytes) (R : Record) (B : Bytes) : Prop where
   slice : ∀ p n, p + n ≤ B.length → n ≤ R.endOfLineOffset p →
     readAt F (R.position p) n = (B.drop p).take n
 
+theorem position_of_pos (R : Record) (p : Nat) (h : 0 < R.basesPerLine) :
+    R.position p = R.start + (p / R.basesPerLine * R.bytesPerLine + p % R.basesPerLine) := by
+  unfold Record.position
+  rw [if_neg (by omega)]
+
 /-- line arithmetic of `position` / `endOfLineOffset` -/
 theorem line_arith (w W cur stop L : Nat) (hw : 0 < w) (hwW : w ≤ W) (h1 : cur < stop) (h2 : stop ≤ L) :
     (cur / w * W + cur % w) < (stop / w * W + stop % w) ∧
@@ -88,14 +93,14 @@ theorem readLoop_spec (F : Bytes) (R : Record) (B : Bytes) (g : Good F R B) (sto
       have hL : stop ≤ R.length := by rw [g.len]; exact hstop
       obtain ⟨a1, a2, a3, a4⟩ := line_arith R.basesPerLine R.bytesPerLine cur stop R.length hw g.bpl_le hlt hL
       have hpos : ¬ (R.position stop ≤ R.position cur) := by
-        simp only [Record.position]; omega
+        rw [position_of_pos R _ hw, position_of_pos R _ hw]; omega
       have heol : R.endOfLineOffset cur =
           (if cur / R.basesPerLine = R.length / R.basesPerLine then R.length - cur
            else R.basesPerLine - cur % R.basesPerLine) := rfl
       have hsub : R.position stop - R.position cur =
           (stop / R.basesPerLine * R.bytesPerLine + stop % R.basesPerLine) -
           (cur / R.basesPerLine * R.bytesPerLine + cur % R.basesPerLine) := by
-        simp only [Record.position]; omega
+        rw [position_of_pos R _ hw, position_of_pos R _ hw]; omega
       -- the number of bytes asked from ReadAt
       have hwant : min (min (R.endOfLineOffset cur) (R.position stop - R.position cur)) k =
           min (min (R.endOfLineOffset cur) (stop - cur)) k := by
